@@ -34,14 +34,25 @@ ConflictFailed(e) ==
      \* a second write that was accepted (identical item, or superseding with cas = in-flight seq) and reported Ok was sent to the
      \* storing nodes: superseding replaces the in-flight write, it does not silently drop the new one
      \cup (IF e.second_result = "ok" /\ ~e.second_written THEN {"C17_SupersedingWriteIsSent"} ELSE {})
+\* C08 for overlapping puts whose target does not determine the payload (two ports / two signers for one info_hash): a call
+\* that reports Ok had ITS OWN write sent to (and acknowledged by - the peers acknowledge everything) a storing node
+OverlapFailed(e) ==
+     (IF e.panicked THEN {"C08_NoPanic"} ELSE {})
+  \cup (IF e.first_outcomes # 1 \/ e.second_outcomes # 1 THEN {"C08_ExactlyOneResult"} ELSE {})
+  \cup (IF (e.first_result = "ok" /\ ~e.first_written) \/ (e.second_result = "ok" /\ ~e.second_written) THEN {"C08_OkOnlyIfOwnWriteSent"} ELSE {})
+  \cup (IF e.first_result \in Concurrency \/ e.second_result \in Concurrency THEN {"C17_NeverForOtherKinds"} ELSE {})
+  \cup (IF e.leak THEN {"C17_ReplacedQueryReleasesCallers"} ELSE {})
+Which(e) == IF e.e # "overlap" THEN "none"
+            ELSE IF e.second_result = "ok" /\ ~e.second_written THEN "second"
+            ELSE IF e.first_result = "ok" /\ ~e.first_written THEN "first" ELSE "none"
 Init == l = 1
 Next == /\ l <= Len(Rec)
         /\ LET e == Rec[l]
-               f == IF e.e = "run" THEN RunFailed(e) \cup MajorityFailed(e) ELSE ConflictFailed(e)
+               f == IF e.e = "run" THEN RunFailed(e) \cup MajorityFailed(e) ELSE IF e.e = "overlap" THEN OverlapFailed(e) ELSE ConflictFailed(e)
                conforms == e.e # "run" \/ e.result = Result(e.kind, e.sent, e.arr_all)
            IN IF f # {} THEN PrintT(<<"VIOL", ToJson([line |-> l, b |-> e.b, failed |-> f,
                       early_exit_after_ack |-> (e.e = "run" /\ EarlyExitAfterAck(e.kind, e.sent, e.arr_all, e.result)),
-                      conforms_to_model |-> conforms])>>)
+                      conforms_to_model |-> conforms, which |-> Which(e), phase |-> IF e.e = "run" THEN "store" ELSE e.phase])>>)
               ELSE IF ~conforms THEN PrintT(<<"DRIFT", ToJson([line |-> l, b |-> e.b, observed |-> e.result, model |-> Result(e.kind, e.sent, e.arr_all)])>>)
               ELSE TRUE
         /\ l' = l + 1
